@@ -326,12 +326,17 @@ def check_user_table(ctx, pairs_, others):
     ok, res = ctx.guard("user-table:visitor", wit, visit_twice)
     if ok:
         once, twice = res
+        pairmap = {}
+        for a, b in pairs_:
+            pairmap[a], pairmap[b] = b, a
         w1 = [want[names_in[0]]] + [want[d] for d in names_in]
-        back = [n for n in [names_in[0], *names_in] ]
+        # the second visit conjugates what the first one left: by the table where the name is in it (read either way), by the particle table otherwise --
+        # which gives the original back, except for a name outside the table whose natural conjugate is a member of one of the caller's pairs
+        back = [pairmap.get(x, names.conj(x)) for x in w1]
         if once != w1:
             ctx.violate("user-table:visitor:first-visit", f"after one visit {once} expected {w1}", wit)
         elif any(("ChargeConj(" not in a) and b != c for a, b, c in zip(w1, twice, back)):
-            ctx.violate("user-table:visitor:second-visit-is-not-the-original", f"after two visits {twice} expected {back}", wit)
+            ctx.violate("user-table:visitor:second-visit", f"after two visits {twice} expected {back}", wit)
 
 
 def run(ctx):
